@@ -20,8 +20,8 @@ def run(tier, seed, pid='C16', pack=None):
     pack.assume(*COMMON_ASSUME)
     pack.assume('matrices, vectors and factors are uninterpreted sorts; "A^-1 b" is an uninterpreted function (ring-level '
                 'reasoning only)', 'not decided: numeric agreement across back ends, bit-identical reruns, numba')
-    items = [(S.suitesparse_solve(pid),), (S.suitesparse_linsolve(pid, 'KLUSolver', 'klu'),),
-             (S.suitesparse_linsolve(pid, 'UMFPACKSolver', 'umfpack'),), (S.spsolve_solve(pid),), (S.spmatrix_to_csc(pid),),
+    items = [(S.suitesparse_solve(pid, 'umfpack'), None, S.replay_solvers), (S.suitesparse_solve(pid, 'klu'), None, S.replay_solvers), (S.suitesparse_linsolve(pid, 'KLUSolver', 'klu'),),
+             (S.suitesparse_linsolve(pid, 'UMFPACKSolver', 'umfpack'),), (S.spsolve_solve(pid), None, S.replay_solvers), (S.refresh_symbolic(pid),), (S.spmatrix_to_csc(pid),),
              (S.solver_dispatch(pid, 'solve'),), (S.solver_dispatch(pid, 'linsolve'),)]
     run_contracts(pack, items)
     if own:
